@@ -26,3 +26,16 @@ func init() {
 		mustHit: []string{"map.reverse", "map.rotate", "map.shuffle", "clock.back"},
 		assume: []string{"the gonum iterator overlay (sorted + permuted keys instead of reflect.MapIter) only produces orders the runtime may produce", "reference plain graph of DESIGN.md §7.7 encodes the statement", "edge conditions are not observable through the plain graph's API and are not compared"}}
 }
+
+func init() {
+	mAssume := []string{
+		"the expected outcome is computed from the generator's plan (worker/mergesim.go refMerge/deriveConflicts), which encodes the statement",
+		"parse errors are not required to name their file (the statement only requires it for conflicts)",
+		"two different files under one name are not generated (the statement is silent on them)",
+	}
+	rule := "one workload = one generated module set (1-4 modules, <= 8 files, extensions, 0-3 injected conflicts, delivery order possibly with one file twice); one evaluation = one TransformModuleFilesToModel call under one schedule over the six merger map sites (canonical, reverse, last-first, rotations of every site and of the extension site, random tapes), plus cold/warm parser history, permuted delivery orders and 2-3 concurrent merges under seeded preemption; distinct = distinct seam-event-log fingerprint; non-trivial = >= 2 extension blocks or >= 1 conflict, AND at least one fault fired"
+	specs["C07"] = &propSpec{engine: "mergesim", quickN: 5000, thorN: 100000, quickS: 60, thorS: 1500, rule: rule,
+		mustHit: []string{"map.reverse", "map.rotate", "map.shuffle", "deliver.permute"}, assume: mAssume}
+	specs["C12"] = &propSpec{engine: "mergesim", quickN: 5000, thorN: 100000, quickS: 60, thorS: 1500, rule: rule,
+		mustHit: []string{"map.reverse", "map.rotate", "map.shuffle", "deliver.permute", "restart.cold", "history.warm", "preempt"}, assume: mAssume}
+}
